@@ -95,6 +95,79 @@ int find_mem_const(char *mem, bool *neg, int *base) {
   return NA;
 }
 
+/**
+ * returns the length of the number (decimal or 0x hexadecimal) at the start
+ * of @param str, 0 if there is none
+ */
+static int number_len(const char *str) {
+  int i = 0;
+  if (str[0] == '0' && str[1] == 'x') {
+    i = 2;
+    while (IN_RANGE(str[i], '0', '9') || IN_RANGE(str[i], 'a', 'f'))
+      i++;
+    return i > 2 ? i : 0;
+  }
+  while (IN_RANGE(str[i], '0', '9'))
+    i++;
+  return i;
+}
+
+int check_mem_syntax(const char *mem) {
+
+  int i = 0;
+  int regs = 0;
+  bool scaled = false;
+  while (mem[i] == ' ')
+    i++;
+  if (mem[i++] != '[')
+    return EXIT_FAILURE;
+  // [constant] and [-constant]
+  if (mem[i] == '-' && IN_RANGE(mem[i + 1], '0', '9')) {
+    i += 1 + number_len(mem + i + 1);
+    return (mem[i] == ']' && mem[i + 1] == '\0') ? EXIT_SUCCESS : EXIT_FAILURE;
+  }
+  while (true) {
+    // only the offset can follow the scaled index
+    if (scaled && (!IN_RANGE(mem[i], '0', '9') || mem[i + 1] == '*'))
+      return EXIT_FAILURE;
+    if (IN_RANGE(mem[i], '0', '9') && mem[i + 1] == '*') {
+      // scale*index
+      if (!IN_RANGE(mem[i + 2], 'a', 'z'))
+        return EXIT_FAILURE;
+      scaled = true;
+      i += 2;
+    } else if (IN_RANGE(mem[i], '0', '9')) {
+      // the offset (or constant) is the last element
+      int len = number_len(mem + i);
+      i += len;
+      return (len && mem[i] == ']' && mem[i + 1] == '\0') ? EXIT_SUCCESS
+                                                          : EXIT_FAILURE;
+    }
+    // base or index register
+    if (!IN_RANGE(mem[i], 'a', 'z') || ++regs > 2)
+      return EXIT_FAILURE;
+    while (IN_RANGE(mem[i], 'a', 'z') || IN_RANGE(mem[i], '0', '9'))
+      i++;
+    // index*scale
+    if (mem[i] == '*') {
+      if (!IN_RANGE(mem[i + 1], '0', '9'))
+        return EXIT_FAILURE;
+      scaled = true;
+      i += 2;
+    }
+    if (mem[i] == ']')
+      return mem[i + 1] == '\0' ? EXIT_SUCCESS : EXIT_FAILURE;
+    // "+-offset" is taken as "-offset"
+    if (mem[i] == '+' && mem[i + 1] == '-')
+      i++;
+    if (mem[i] == '-' && !IN_RANGE(mem[i + 1], '0', '9'))
+      return EXIT_FAILURE;
+    if (mem[i] != '+' && mem[i] != '-')
+      return EXIT_FAILURE;
+    i++;
+  }
+}
+
 uint32_t process_neg_disp(uint32_t neg_num) {
   // convert neg_num to negative 2's complement representation
   // the value is kept sign extended to 32 bits: a displacement without a base
